@@ -195,6 +195,11 @@ def K(case, n=8):
     return [abs(v) for v in out]
 
 
+def xseed(case, i=0):
+    """Explicit component seed: 0, 1 and the case seed are all legal values and all of them are generated."""
+    return [0, 1, int(case.get("seed", 0) or 0)][i % 3]
+
+
 def rng_of(case, salt=0):
     return _random.Random((int(case.get("seed", 0) or 0) * 1000003 + salt) & 0xFFFFFFFF)
 
@@ -215,8 +220,9 @@ def build(case):
         fam = fams[K({"k": [len(str(fam))]})[0] % len(fams)]
     seed = case.get("seed", 0) if isinstance(case, dict) else 0
     seed = int(seed) if isinstance(seed, (int, bool)) else 0
-    seed_globals(abs(seed))
-    ORIGIN.clear()
+    if "noglobalseed" not in TRAITS.get(fam, ()):
+        seed_globals(abs(seed))      # families whose model is seeded explicitly throughout are built on whatever state the
+    ORIGIN.clear()                   # module-level generators are in: they must not consume those streams at all
     c = {"family": fam, "seed": abs(seed), "k": K(case)}
     sc = SCENARIOS[fam](c)
     sc.family = fam
@@ -761,10 +767,31 @@ def f_distributed_rate_limiter(case):
 
 
 # ------------------------------------------------------------------------------ network
+def symmetric_jitter(width_s, seed):
+    """Zero-mean jitter, uniform in [-width, +width] from its own seeded generator: samples can be negative and, with a
+    width above the base latency, push the sum below zero -- NetworkLink documents that it clamps the total delay."""
+    from happysimulator.distributions.latency_distribution import LatencyDistribution
+
+    class _Sym(LatencyDistribution):
+        def __init__(self):
+            super().__init__(0.0)
+            self._r = _random.Random(seed)
+
+        def get_latency(self, current_time=None):
+            return Duration.from_seconds(self._mean_latency + self._r.uniform(-width_s, width_s))
+    return _Sym()
+
+
 def mk_link(name, idx, a, b):
     from happysimulator.components.network import conditions as nc
     from happysimulator.components.network.link import NetworkLink
-    i = idx % 6
+    i = idx % 8
+    if i == 6:       # symmetric jitter wider than the base latency (+ transmission time)
+        return NetworkLink(name, latency=ConstantLatency(ticks(1 + a % 3)), jitter=symmetric_jitter(ticks(2 + a % 3 + b % 4), 1000 * a + b),
+                           bandwidth_bps=[None, 1_000_000.0][b % 2])
+    if i == 7:       # a constant jitter shifted below zero with the documented `dist - seconds` arithmetic
+        return NetworkLink(name, latency=ConstantLatency(ticks(1 + a % 3)), jitter=ConstantLatency(ticks(1)) - ticks(2 + a % 3 + b % 4),
+                           packet_loss_rate=[0.0, 0.1][b % 2])
     if i == 0:
         return NetworkLink(name, latency=ConstantLatency(ticks(1 + a % 5)))
     if i == 1:
@@ -1260,7 +1287,7 @@ def f_event_log_group(case):
     k = K(case)
     from happysimulator.components.datastore import sharded_store as _ss
     pol = [None, TimeRetention(max_age_s=ticks([2, 20 + k[0] % 20][k[0] % 2])), SizeRetention(max_records=1 + k[0] % 8)][k[1] % 3]
-    shard = [None, _ss.HashSharding(), _ss.RangeSharding(), _ss.ConsistentHashSharding(virtual_nodes=4, seed=case["seed"])][k[7] % 4]
+    shard = [None, _ss.HashSharding(), _ss.RangeSharding(), _ss.ConsistentHashSharding(virtual_nodes=4, seed=xseed(case, k[0]))][k[7] % 4]
     log = EventLog("log", num_partitions=1 + k[2] % 4, sharding_strategy=shard, retention_policy=pol, append_latency=ticks(1 + k[3] % 3),
                    read_latency=ticks(1), retention_check_interval=ticks([2, 8 + k[4] % 8, 60][k[4] % 3]))
     strat = [None, cg.RangeAssignment(), cg.RoundRobinAssignment(), cg.StickyAssignment()][k[5] % 4]
@@ -1534,7 +1561,7 @@ def f_cached_store(case):
     kv = KVStore("db", read_latency=ticks(2 + k[0] % 3), write_latency=ticks(2 + k[1] % 3))
     for i, key in enumerate(KEYS[:8]):
         kv.put_sync(key, i)
-    cs = CachedStore("cache", kv, cache_capacity=2 + k[2] % 4, eviction_policy=mk_eviction(k[3], case["seed"], k[4], holder),
+    cs = CachedStore("cache", kv, cache_capacity=2 + k[2] % 4, eviction_policy=mk_eviction(k[3], xseed(case, k[6]), k[4], holder),
                      cache_read_latency=ticks(1), write_through=bool(k[5] % 2))
     holder["e"] = cs
     warmer = CacheWarmer("warmer", cs, keys_to_warm=KEYS[:4 + k[6] % 4], warmup_rate=512.0 / (1 + k[7] % 3), warmup_latency=ticks(1))
@@ -1546,7 +1573,12 @@ def f_cached_store(case):
         cs.invalidate(KEYS[self.events_received % 6])
     fl = Proc("flusher", flusher)
     evs += [ev(20 + 25 * i, fl, "Flush") for i in range(4)]
-    sim = mksim([kv, cs, warmer, fl] + workers, 1500, events=evs)
+    scanner, skeys = key_stream_worker(cs, 150, 40, case)          # long stream: overflows the policies' bounded histories
+    for i, key in enumerate(skeys):
+        kv.put_sync(key, i)
+    workers = workers + [scanner]
+    evs.append(ev(3, scanner, "Start"))
+    sim = mksim([kv, cs, warmer, fl] + workers, 2500, events=evs)
     sim.schedule(warmer.start_warming())
     pol = pick(EVICTION_NAMES, k[3])
     variant = "writeback" if not k[5] % 2 else (pol if pol in ("Random", "TTL-wallclock") else "")
@@ -1563,13 +1595,18 @@ def f_multi_tier_cache(case):
     kv = KVStore("db", read_latency=ticks(3), write_latency=ticks(3))
     for i, key in enumerate(KEYS[:8]):
         kv.put_sync(key, i)
-    tiers = [CachedStore(f"L{i + 1}", kv, cache_capacity=1 + (k[i] + i) % 3 + i, eviction_policy=mk_eviction(k[2 + i], case["seed"] + i, k[4], holder),
+    tiers = [CachedStore(f"L{i + 1}", kv, cache_capacity=1 + (k[i] + i) % 3 + i, eviction_policy=mk_eviction(k[2 + i], xseed(case, k[6] + i), k[4], holder),
                          cache_read_latency=ticks(1 + i), write_through=True) for i in range(2)]
     holder["e"] = kv
     mt = MultiTierCache("tiers", tiers=tiers, backing_store=kv,
                         promotion_policy=[PromotionPolicy.ALWAYS, PromotionPolicy.ON_SECOND_ACCESS, PromotionPolicy.NEVER][k[5] % 3])
     workers, evs = kv_workers(mt, case, 3, 30, 8, ops=("put", "get", "get", "get", "delete"))
-    sim = mksim([kv, mt] + tiers + workers, 1500, events=evs)
+    scanner, skeys = key_stream_worker(mt, 150, 41, case)
+    for i, key in enumerate(skeys):
+        kv.put_sync(key, i)
+    workers = workers + [scanner]
+    evs.append(ev(3, scanner, "Start"))
+    sim = mksim([kv, mt] + tiers + workers, 2500, events=evs)
     pols = [pick(EVICTION_NAMES, k[2 + i]) for i in range(2)]
     variant = "Random" if "Random" in pols else ("TTL-wallclock" if "TTL-wallclock" in pols else "")
     return Scenario(sim, workload=90, extra=lambda: {"logs": [w.log for w in workers], "tier_stats": mt.get_tier_stats()}, variant=variant)
@@ -1626,7 +1663,7 @@ def f_sharded_store(case):
     k = K(case)
     shards = [KVStore(f"shard{i}", read_latency=ticks(1 + (k[0] + i) % 2), write_latency=ticks(1 + (k[1] + i) % 3)) for i in range(2 + k[2] % 3)]
     strat = [ss.HashSharding(), ss.RangeSharding(), ss.RangeSharding(boundaries=["key-c", "key-f", "user"][:len(shards) - 1]),
-             ss.ConsistentHashSharding(virtual_nodes=1 + k[3] % 30, seed=case["seed"])][k[4] % 4]
+             ss.ConsistentHashSharding(virtual_nodes=1 + k[3] % 30, seed=xseed(case, k[5]))][k[4] % 4]
     st = ShardedStore("sharded", shards, sharding_strategy=strat)
     workers, evs = kv_workers(st, case, 3, 30, 11, ops=("put", "put", "get", "get", "delete"))
 
@@ -1657,7 +1694,7 @@ def full_mesh(net, nodes, k, base=0):
     for i, a in enumerate(nodes):
         for j, b in enumerate(nodes):
             if i != j:
-                net.add_link(a, b, mk_link(f"{a.name}>{b.name}", [0, 1, 0, 3][(k[(i + j) % 8] + base) % 4], k[i % 8] + j, k[j % 8]))
+                net.add_link(a, b, mk_link(f"{a.name}>{b.name}", [0, 1, 0, 3, 6, 7][(k[(i + j) % 8] + base) % 6], k[i % 8] + j, k[j % 8]))
 
 
 def md_ev(t_ticks, target, etype, **meta):
@@ -1771,7 +1808,7 @@ def wire_cluster(net, nodes, k):
     for i, a in enumerate(nodes):
         for b in nodes[i + 1:]:
             j = nodes.index(b)
-            jit = ExponentialLatency(ticks(1)) if (k[(i + j) % 8] % 3 == 0) else None
+            jit = [ExponentialLatency(ticks(1)), None, None, symmetric_jitter(ticks(3 + j), 31 * i + j), ConstantLatency(ticks(1)) - ticks(5)][k[(i + j) % 8] % 5]
             loss = [0.0, 0.0, 0.05, 0.2][k[(i * j + 1) % 8] % 4]
             net.add_bidirectional_link(a, b, NetworkLink(f"link-{a.name}-{b.name}", latency=ConstantLatency(ticks(1 + k[(i + 2 * j) % 8] % 3)),
                                                          jitter=jit, packet_loss_rate=loss))
@@ -2011,7 +2048,7 @@ def f_sketch_collectors(case):
     from happysimulator.components.sketching import QuantileEstimator, SketchCollector, TopKCollector
     from happysimulator.distributions.zipf import ZipfDistribution
     k = K(case)
-    seed = case["seed"]
+    seed = xseed(case, k[7])            # 0, 1 or the case seed: every sketch / distribution seed value is legal
     item = lambda e: e.context["item"]  # noqa: E731
     cms = SketchCollector("cms", sk.CountMinSketch(width=8 + k[0] % 24, depth=2 + k[1] % 3, seed=seed), value_extractor=item)
     bloom = SketchCollector("bloom", sk.BloomFilter(size_bits=64 + 8 * (k[2] % 16), num_hashes=2 + k[3] % 3, seed=seed), value_extractor=item)
@@ -2029,8 +2066,8 @@ def f_sketch_collectors(case):
         return [Event(time=self.now, event_type="Item", target=c, context=ctx) for c in cols]
     f = Proc("fanout", fan)
     n = 120
-    src = const_source("items", f, 1, n, seed, etype="Go")
-    src2 = poisson_source("items2", f, 120.0, n, seed + 1, etype="Go")
+    src = const_source("items", f, 1, n, case["seed"], etype="Go")
+    src2 = poisson_source("items2", f, 120.0, n, case["seed"] + 1, etype="Go")
     sim = mksim(cols + [f], n + 50, sources=[src, src2])
     probes = [f"user-{i}" for i in range(0, 30, 3)] + ["nobody"]
 
@@ -2324,7 +2361,7 @@ def f_behavior_population(case):
     evs = []
     for i in range(6):
         t = ticks(4 + 12 * i)
-        evs.append(broadcast_stimulus(t, env, "Promo", choices=["buy", "wait", "switch"], valence=0.2))
+        evs.append(broadcast_stimulus(t, env, "Promo", choices=["buy", "wait", "switch"], valence=[0.2, 9.0, -9.0][(i + k[7]) % 3]))
         evs.append(price_change(t + ticks(3), env, "GadgetX", 100.0, 100.0 - 5 * i))
         evs.append(influence_propagation(t + ticks(6), env, topic="product_sentiment"))
     evs.append(targeted_stimulus(ticks(20), env, [a.name for a in pop.agents[:3]], "Coupon", choices=["buy", "wait"]))
@@ -2353,7 +2390,7 @@ def f_advertising(case):
     for a in advs:
         evs += a.start_events()
         for j in range(5):
-            evs.append(md_ev(10 + 20 * j + k[5] % 7, a, "SentimentChange", sentiment=[1.0, 0.8, 0.55, 0.7, 0.95][(j + k[6]) % 5]))
+            evs.append(md_ev(10 + 20 * j + k[5] % 7, a, "SentimentChange", sentiment=[1.0, 0.8, 0.55, 0.7, 0.95, 1.4, -0.3][(j + k[6]) % 7]))
     sim = mksim([plat] + advs, 200, events=evs)
     return Scenario(sim, workload=60)
 
@@ -2414,22 +2451,48 @@ def f_prebuilt_events(case):
     return Scenario(sim, workload=3 * n + 50)
 
 
+def key_stream_worker(store, nkeys, salt, case, name="scanner"):
+    """A worker that walks through ``nkeys`` distinct string keys (each new key evicts from a small cache) and keeps
+    going back to keys it used 3, 20, 45, 60, 90 and 150 steps ago, i.e. to keys that were evicted recently, long ago,
+    and longer ago than any bounded history (ghost queues of 50 entries, frequency tables, sample windows) can hold."""
+    rnd = rng_of(case, 700 + salt)
+    keys = [f"item-{i:03d}" for i in range(nkeys)]
+
+    def run(self, e):
+        hits = 0
+        for i, key in enumerate(keys):
+            v = yield from store.get(key)
+            hits += v is not None
+            if i % 2:
+                back = rnd.choice([3, 20, 45, 60, 90, 150])
+                if i - back >= 0:
+                    v = yield from store.get(keys[i - back])
+                    hits += v is not None
+            if i % 25 == 24:
+                yield from store.put(keys[i - 7], i)
+        self.log.append(("hits", hits))
+    return Proc(name, run), keys
+
+
 def _evict_family(idx, name):
     """One family per eviction policy (write-through, so the policy is the only source of variation): every policy
-    is exercised in every run instead of one CachedStore scenario in ten."""
+    is exercised in every run instead of one CachedStore scenario in ten; a 240-300 key stream through a 2-6 entry
+    cache overflows every bounded structure inside the policies."""
     def build_(case):
         from happysimulator.components.datastore import CachedStore, KVStore
         k = K(case)
         holder = {}
-        kv = KVStore("db", read_latency=ticks(1 + k[0] % 3), write_latency=ticks(1 + k[1] % 3))
-        for i, key in enumerate(KEYS[:10]):
-            kv.put_sync(key, i)
-        cs = CachedStore("cache", kv, cache_capacity=2 + k[2] % 3, eviction_policy=mk_eviction(idx, case["seed"], k[3], holder),
+        kv = KVStore("db", read_latency=ticks(1), write_latency=ticks(1 + k[1] % 2))
+        cs = CachedStore("cache", kv, cache_capacity=2 + k[2] % 5, eviction_policy=mk_eviction(idx, xseed(case, k[0]), k[3], holder),
                          cache_read_latency=ticks(1), write_through=True)
         holder["e"] = cs
-        workers, evs = kv_workers(cs, case, 3, 30, 10 + idx, ops=("put", "get", "get", "get", "delete"))
-        sim = mksim([kv, cs] + workers, 1500, events=evs)
-        return Scenario(sim, workload=90, extra=lambda: {"logs": [w.log for w in workers], "cached": sorted(cs.get_cached_keys())})
+        scanner, keys = key_stream_worker(cs, 240 + 20 * (k[4] % 4), idx, case)
+        for i, key in enumerate(keys):
+            kv.put_sync(key, i)
+        workers, evs = kv_workers(cs, case, 2, 20, 10 + idx, ops=("put", "get", "get", "get", "delete"))
+        sim = mksim([kv, cs, scanner] + workers, 3000, events=evs + [ev(1, scanner, "Start")])
+        return Scenario(sim, workload=600, extra=lambda: {"logs": [w.log for w in workers], "scan": scanner.log,
+                                                          "cached": sorted(cs.get_cached_keys())})
     build_.__name__ = f"f_evict_{name}"
     return build_
 
@@ -2543,3 +2606,52 @@ def f_reset_rerun(case):
     for i in range(12 + k[3] % 19):                        # 12-30 jobs, most of them at one instant
         sim.schedule(Event(time=T(4 if i % 4 else 4 + i), event_type=f"job{i}", target=srv, context={"metadata": {"i": i}}))
     return Scenario(sim, workload=2 * n + 60)
+
+
+@family("explicit_seeds", "strkeys", "noglobalseed")
+def f_explicit_seeds(case):
+    """A model in which *every* random choice is seeded explicitly (value distributions, eviction policies, sketches,
+    sharding) and nothing draws from the module-level generators.  The harness therefore does not seed those
+    generators for this family (trait ``noglobalseed``): the run must not depend on their state, i.e. on what ran
+    before.  Of the three value distributions exactly one is seeded with 0, one with 1 and one with the case seed."""
+    from happysimulator import sketching as sk
+    from happysimulator.components.datastore import CachedStore, KVStore, ShardedStore
+    from happysimulator.components.datastore import eviction_policies as ep
+    from happysimulator.components.datastore import sharded_store as ss
+    from happysimulator.components.sketching import QuantileEstimator, SketchCollector, TopKCollector
+    from happysimulator.distributions.uniform import UniformDistribution
+    from happysimulator.distributions.zipf import ZipfDistribution
+    k = K(case)
+    keys = [f"item-{i}" for i in range(60)]
+    regions = ["us-east", "us-west", "eu", "ap"]
+    zipf = ZipfDistribution(keys, s=1.0 + (k[1] % 3) * 0.25, seed=xseed(case, k[0]))
+    unif = UniformDistribution(regions, seed=xseed(case, k[0] + 1))
+    sizes = ZipfDistribution([1, 2, 3, 5, 8], s=1.2, seed=xseed(case, k[0] + 2))
+    kv = KVStore("db", read_latency=ticks(2), write_latency=ticks(2))
+    for i, key in enumerate(keys):
+        kv.put_sync(key, i)
+    pol = [ep.RandomEviction(seed=xseed(case, k[2])), ep.SampledLRUEviction(sample_size=2, seed=xseed(case, k[2])), ep.LRUEviction()][k[3] % 3]
+    cache = CachedStore("cache", kv, cache_capacity=4 + k[4] % 6, eviction_policy=pol, cache_read_latency=ticks(1))
+    shards = [KVStore(f"shard{i}", read_latency=ticks(1), write_latency=ticks(1)) for i in range(3)]
+    sharded = ShardedStore("sharded", shards, sharding_strategy=ss.ConsistentHashSharding(virtual_nodes=8, seed=xseed(case, k[5])))
+    sinks = {r: Sink(f"sink-{r}") for r in regions}
+    item = lambda e: e.context["key"]  # noqa: E731
+    topk = TopKCollector("topk", k=5, value_extractor=item, seed=xseed(case, k[6]))
+    quant = QuantileEstimator("sizes", value_extractor=lambda e: float(e.context["size"]), seed=xseed(case, k[6] + 1))
+    res = SketchCollector("reservoir", sk.ReservoirSampler(size=6, seed=xseed(case, k[7])), value_extractor=item)
+    cms = SketchCollector("cms", sk.CountMinSketch(width=16, depth=3, seed=xseed(case, k[7] + 1)), value_extractor=item)
+
+    def client(self, e):
+        key, region, size = zipf.sample(), unif.sample(), sizes.sample()
+        ctx = {"key": key, "region": region, "size": size}
+        v = yield from cache.get(key)
+        yield from sharded.put(key, size)
+        self.log.append((key, region, v))
+        return [Event(time=self.now, event_type="Done", target=sinks[region], context=ctx)] + \
+               [Event(time=self.now, event_type="Item", target=c, context=ctx) for c in (topk, quant, res, cms)]
+    cl = Proc("client", client)
+    n = 70
+    src = const_source("src", cl, 2, 2 * n, case["seed"], etype="Go")
+    sim = mksim([kv, cache, sharded, cl, topk, quant, res, cms] + shards + list(sinks.values()), 2 * n + 100, sources=[src])
+    return Scenario(sim, workload=6 * n, extra=lambda: {"log": cl.log, "topk": [(x.item, x.count) for x in topk.top()],
+                                                         "reservoir": sorted(res.sketch.sample()), "sizes": shards and sharded.get_shard_sizes()})
